@@ -89,6 +89,11 @@ def _rmdir_racing_with_stragglers(real_rmdir):
 @contextlib.contextmanager
 def installed(sim: kernel.Sim):
     import importlib
+    import filecmp
+    # one simulated execution = one Exactly process: caches of the standard library that live as long as the interpreter
+    # start empty (filecmp keeps verdicts keyed by path, size and mtime - and the files of the simulated world all carry
+    # the same mtime, so a stale verdict of an earlier plan would otherwise be served for same-sized files)
+    filecmp.clear_cache()
     saved_mod = []
     kernel.set_cur(sim)
     real_popen = subprocess.Popen
